@@ -32,6 +32,8 @@ import (
 //	               auth message): HMAC(HMAC("", "Server Key"), "")
 //	empty          an empty challenge
 //	junk           a challenge that is neither r=.. nor v=..
+//	final-lastconn the server-final an honest server sent on an earlier connection (a recorded
+//	               signature, replayed); degrades to final-other when there was none
 //	hangup         the connection is dropped instead of an answer
 //	235            authentication successful
 //	535            authentication failed
@@ -222,6 +224,14 @@ func (ad *adversary) Step(resp []byte, has bool) StepOut {
 			first = ad.iter0First
 		}
 		msg = "v=" + base64.StdEncoding.EncodeToString(hm(ad.h, sk, []byte(ad.bare+","+first+","+ad.lastFinal)))
+	case "final-lastconn":
+		if ad.sess != nil && ad.sess.srv.LastHonestFinal != "" {
+			msg = ad.sess.srv.LastHonestFinal
+		} else {
+			st.Sym = "final-other"
+			_, _, sk := ScramKeys(ad.h, "some-other-password", ad.a.Salt, ad.iter())
+			msg = "v=" + base64.StdEncoding.EncodeToString(hm(ad.h, sk, []byte(ad.bare+","+ad.first+","+ad.final)))
+		}
 	case "final-blank":
 		msg = "v="
 	case "final-other":
